@@ -112,6 +112,19 @@ def replay_verbs(inputs, obl):
                 if y != 0:
                     q = abs(x) // abs(y)
                     grid.append((f"{lit(x)}:%{lit(y)}", q if (x >= 0) == (y > 0) else -q))
+    if tok is None or 'remainder' in obl:
+        # Remainder keeps the sign of the dividend, exactly - also beyond 2**53, where a detour through reals loses digits
+        big = [9007199254740993, 1000000000000000007, -1000000000000000011, 4611686018427387905, 2 ** 53 + 1, -(2 ** 53) - 1]
+        for x in counts + big:
+            for y in [v for v in counts if v != 0] + [3, 9, 13, 5, -7]:
+                r = abs(x) % abs(y)
+                grid.append((f"{lit(x)}!{lit(y)}", r if x >= 0 else -r))
+    if tok is None or 'reshape' in obl:
+        # the shape operand is data of the caller: a second use of the same shape object sees the shape that was written
+        k('shp::[2 -1]')
+        seq = [('shp:^!10', [[0, 1, 2, 3, 4], [5, 6, 7, 8, 9]]), ('shp:^!8', [[0, 1, 2, 3], [4, 5, 6, 7]]), ('shp', [2, -1]),
+               ('rf::{[-1 2]:^x};rf(!10)', [[0, 1], [2, 3], [4, 5], [6, 7], [8, 9]]), ('rf(!6)', [[0, 1], [2, 3], [4, 5]])]
+        grid.extend(seq)
     for src, want in grid:
         try:
             got = norm(k(src))
